@@ -43,3 +43,32 @@ func VH_C29_state() {
 	old := s.Set(b)
 	vAssert(vAnd(old == a, s.Get() == b), "C29.state_swap")
 }
+
+// VH_C29_concurrent_next(bound): two goroutines take two IDs each,
+// pre-emptively interleaved (context bound `bound`): the four results are the
+// four consecutive IDs, each handed out once, and no data race is seen.
+func VH_C29_concurrent_next(bound int) {
+	next := vNondetU16("next")
+	vAssume(vAnd(next >= 1, next <= 1000))
+	s := VSeqState(1, 0xFFFE, next, false)
+	var got [4]uint16
+	d1, d2 := false, false
+	vPreempt(bound)
+	vGo(func() { got[0], _ = s.Next(); got[1], _ = s.Next(); d1 = true })
+	vGo(func() { got[2], _ = s.Next(); got[3], _ = s.Next(); d2 = true })
+	vRunUntilIdle()
+	vPreempt(0)
+	vAssume(vAnd(d1, d2))
+	vReach("C29.concurrent_done")
+	seen := 0
+	for _, g := range got {
+		ok := vAnd(g >= next, g < next+4)
+		vAssert(ok, "C29.concurrent_ids_consecutive")
+		if ok {
+			seen |= 1 << uint(g-next)
+		}
+	}
+	vAssert(seen == 15, "C29.concurrent_ids_distinct")
+	vAssert(vAnd(got[0] < got[1], got[2] < got[3]), "C29.concurrent_ids_ordered_per_goroutine")
+	vAssert(vRaces() == 0, "C29.concurrent_race_free")
+}
